@@ -938,8 +938,8 @@ fn main() {
                         "forward.expired",
                         "forward.target-fails",
                         "forward.user=forwarder",
-                        "enable.by-manager",
-                        "disable.by-manager",
+                        // (a manager's enable of a listed / disable of an unlisted token may be refused
+                        //  or be a silent no-op: the statement only constrains the resulting set)
                         "enable.not-by-manager",
                         "disable.not-by-manager",
                     ],
